@@ -60,7 +60,7 @@ class VM(object):
         except IndexError:
             raise ScriptError("getitem out of range", errno.INVALID_STACK_OPERATION)
 
-    def pop_int(self) -> int:
+    def pop_int(self, max_size: int = 4) -> int:
         raise NotImplementedError
 
     def pop_nonnegative(self) -> int:
